@@ -1015,6 +1015,14 @@ class C09(RunSpec):
             d["levels"][1]["lsc"] = {"k": "melimit", "n": 2 + (idx // 10) % 2}  # slots keep freeing: sprouting goes on through the whole run
             d["levels"][1]["gens"] = 1
             d["gsc"] = {"k": "melimit", "n": 16}
+        if d.get("reuse") and idx % 10 == 4 and d.get("kind") == "tree" and len(d["levels"]) >= 2:
+            # (reuse pair) the stock NBC mechanism - whose distance filter also looks at *finished* demes - serves two trees one after the
+            # other: what it knows about the first tree's finished demes must not be used for the second tree's demes of the same id
+            d["sprout"] = {"k": "nbc", "gdf": 1.0, "trunc": 1.0, "fdf": 1.5, "ll": 4}
+            d["levels"][0]["lsc"] = {"k": "dontstop"}
+            for lv in d["levels"][1:]:
+                lv["lsc"] = {"k": "melimit", "n": 2}
+            d["gsc"] = {"k": "melimit", "n": 10}
         if idx % 6 == 2 and idx % 4 != 3:
             # truncation keeps exactly one individual of every (small) non-leaf population
             for lv in d["levels"][:-1]:
@@ -1046,6 +1054,7 @@ class C09(RunSpec):
             ("C09.rejected.NBC_FarEnough", 1, "seed rejected by NBC_FarEnough"),
             ("C09.candidates_whose_nearest_sibling_depends_on_the_norm", 100, "candidates handed to a distance filter with a non-Euclidean norm whose nearest considered deme differs between that norm and the Euclidean one"),
             ("C09.candidates_rejected_only_because_of_a_sibling_that_is_not_the_euclidean_nearest", 5, "candidates that are too close (in the configured norm) to a considered deme other than their Euclidean-nearest one, which itself is far enough"),
+            ("C09.second_tree_of_a_reuse_pair_filtered_against_finished_demes", 5, "NBC_FarEnough applied in the second tree of a reuse pair while finished demes exist on the target level"),
             ("C09.nbc_mean_distance_not_finite", 1, "round in which truncation kept a single individual (undefined threshold)"),
         ]
         return fl
@@ -1497,6 +1506,7 @@ class C14(DirectSpec):
         fl = [(f"engine.{e}", 1, "engine present") for e in gen.ROOT_ENGINES + gen.CMA_ENGINES + gen.LEAF_ONLY]
         fl += [("same_config_objects_run_twice", 10, "the same configuration objects run twice in one process"),
                ("two_seed_consuming_demes_sprouted_onto_one_level_in_one_metaepoch", 2, "two CMA-ES / LHS / Sobol demes sprouted onto one level in one metaepoch"),
+               ("descriptors_with_a_de_or_shade_population_of_32_or_more", 2, "seeded twins with a DE / SHADE population of 32 or more individuals"),
                ("cma_deme_handed_the_largest_seed_numpy_accepts", 2, "CMA-ES deme sprouted in metaepoch 1 of a run seeded with 2**32 - 2 (its seed is 2**32 - 1)"),
                ("seeded_runs_carried_out_through_the_stepping_methods", 8, "seeded runs driven by run_step() calls followed by run(), or by run_metaepoch() / run_sprout() by hand"),
                ("runs_preceded_by_a_short_run_of_a_sibling_configuration", 10, "seeded runs repeated after a short run of a sibling configuration in the same process"),
